@@ -113,6 +113,9 @@ fn snippet_text(chars: &[Value]) -> String {
             ("!", _) => '!',
             ("n", _) => '\n',
             ("s", _) => ' ',
+            // multi-byte white space (not ASCII: compute_snippet_slices treats it like any other character)
+            ("w", 2) => '\u{a0}',
+            ("w", _) => '\u{3000}',
             (_, 1) => 'a',
             (_, 2) => 'é',
             (_, 3) => '語',
@@ -147,6 +150,142 @@ fn run_snippet(case: &Value) -> Value {
                                           "sliceable": sliceable, "len": text.len()}),
         Err(_) => json!({"panic": true}),
     }
+}
+
+// ------------------------------------------------------------------ C34 chunk planning
+fn chunk_class(ch: char) -> &'static str {
+    match ch {
+        '\n' => "n",
+        '.' | '!' | '?' => ".",
+        c if c.is_whitespace() => "s",
+        _ => "a",
+    }
+}
+
+/// run-length text [[count, class], ...] -> string; letters vary so that words are not one repeated character
+fn chunk_text(rl: &[Value]) -> String {
+    let mut s = String::new();
+    let mut k = 0usize;
+    for item in rl {
+        let n = item[0].as_u64().unwrap_or(0) as usize;
+        let cls = item[1].as_str().unwrap_or("a");
+        for _ in 0..n {
+            k += 1;
+            s.push(match cls {
+                "n" => '\n',
+                "s" => ' ',
+                "." => ['.', '!', '?'][k % 3],
+                "é" => 'é',
+                _ => (b'a' + (k % 26) as u8) as char,
+            });
+        }
+    }
+    s
+}
+
+fn run_length(text: &str) -> Vec<Value> {
+    let mut out: Vec<(usize, &'static str)> = Vec::new();
+    for ch in text.chars() {
+        let c = chunk_class(ch);
+        match out.last_mut() {
+            Some(last) if last.1 == c => last.0 += 1,
+            _ => out.push((1, c)),
+        }
+    }
+    out.into_iter().map(|(n, c)| json!([n, c])).collect()
+}
+
+/// structured documents: blocks of prose, markdown tables and fenced code
+fn chunk_doc(blocks: &[Value]) -> String {
+    let mut s = String::new();
+    for (bi, b) in blocks.iter().enumerate() {
+        let n = b["n"].as_u64().unwrap_or(1) as usize;
+        match b["k"].as_str().unwrap_or("para") {
+            "table" => {
+                let cols = b["cols"].as_u64().unwrap_or(3) as usize;
+                s.push_str(&format!("|{}|\n", (0..cols).map(|c| format!(" head{bi}x{c} ")).collect::<Vec<_>>().join("|")));
+                s.push_str(&format!("|{}|\n", (0..cols).map(|_| "------".to_string()).collect::<Vec<_>>().join("|")));
+                for r in 0..n {
+                    s.push_str(&format!("|{}|\n", (0..cols).map(|c| format!(" cell{bi}r{r}c{c} value ")).collect::<Vec<_>>().join("|")));
+                }
+                s.push('\n');
+            }
+            "code" => {
+                s.push_str("```rust\n");
+                for r in 0..n {
+                    s.push_str(&format!("let variable_{bi}_{r} = compute_something({r}) + {bi};\n"));
+                }
+                s.push_str("```\n\n");
+            }
+            _ => {
+                for r in 0..n {
+                    s.push_str(&format!("Paragraph {bi} sentence {r} talks about topic number {r} in some detail.\n"));
+                }
+                s.push_str("\n\n");
+            }
+        }
+    }
+    s
+}
+
+fn run_chunk(case: &Value) -> Value {
+    let c = case["C"].as_u64().unwrap_or(0) as usize;
+    let r = catch_unwind(AssertUnwindSafe(|| {
+        if let Some(blocks) = case["doc"].as_array() {
+            // structured text through the whole planner
+            let text = chunk_doc(blocks);
+            let norm = memvid_core::normalize_text(&text, usize::MAX).map(|n| n.text).unwrap_or_default();
+            let total = norm.chars().count();
+            return match memvid_core::verif::plan_text_chunks(&text) {
+                None => json!({"none": true, "total": total, "structured": true}),
+                Some((ranges, chunks)) => {
+                    let no_empty = chunks.iter().all(|c| !c.trim().is_empty());
+                    // a line "appears" in a chunk when the chunk contains it, or - the structural chunker re-renders tables - when
+                    // it is a table row and one chunk contains all of its cell texts (a delimiter row has none: nothing to lose)
+                    let covered = |l: &str| -> bool {
+                        if chunks.iter().any(|c| c.contains(l)) {
+                            return true;
+                        }
+                        if !l.starts_with('|') {
+                            return false;
+                        }
+                        let cells: Vec<&str> = l.split('|').map(str::trim)
+                            .filter(|c| !c.is_empty() && !c.chars().all(|x| x == '-' || x == ':' || x == ' ')).collect();
+                        chunks.iter().any(|c| cells.iter().all(|cell| c.contains(cell)))
+                    };
+                    let missing: Vec<&str> = norm.lines().map(str::trim).filter(|l| !l.is_empty()).filter(|l| !covered(l)).collect();
+                    json!({"none": false, "total": total, "structured": true, "nchunks": chunks.len(), "nranges": ranges.len(),
+                           "no_empty": no_empty, "lines_covered": missing.is_empty(), "missing": missing.len(), "missing_lens": missing.iter().map(|l| l.chars().count()).collect::<Vec<_>>(), "missing_head": missing.iter().map(|l| l.chars().take(60).collect::<String>()).collect::<Vec<_>>(),
+                           "ranges_in_text": ranges.iter().all(|(a, b)| a <= b && *b <= total)})
+                }
+            };
+        }
+        let text = chunk_text(case["text"].as_array().map(Vec::as_slice).unwrap_or(&[]));
+        if c > 0 {
+            // the naive planner with an explicit chunk size, on the text as given
+            let total = text.chars().count();
+            return match memvid_core::verif::chunk_manifest(&text, c) {
+                None => json!({"none": true, "total": total, "ranges": []}),
+                Some(r) => json!({"none": false, "total": total, "ranges": r.iter().map(|(a, b)| json!([a, b])).collect::<Vec<_>>()}),
+            };
+        }
+        // the whole planner (normalisation first); TLC is given the classes of the NORMALISED text
+        let norm = memvid_core::normalize_text(&text, usize::MAX).map(|n| n.text).unwrap_or_default();
+        let total = norm.chars().count();
+        let nchars: Vec<char> = norm.chars().collect();
+        match memvid_core::verif::plan_text_chunks(&text) {
+            None => json!({"none": true, "total": total, "ranges": [], "norm": run_length(&norm)}),
+            Some((ranges, chunks)) => {
+                let concat: String = chunks.concat();
+                let slices_ok = ranges.len() == chunks.len() && ranges.iter().zip(chunks.iter()).all(|((a, b), c)| {
+                    *a <= *b && *b <= nchars.len() && nchars[*a..*b].iter().collect::<String>() == *c
+                });
+                json!({"none": false, "total": total, "ranges": ranges.iter().map(|(a, b)| json!([a, b])).collect::<Vec<_>>(),
+                       "norm": run_length(&norm), "concat_ok": concat == norm, "slices_ok": slices_ok})
+            }
+        }
+    }));
+    r.unwrap_or_else(|_| json!({"panic": true}))
 }
 
 const WORDS: [&str; 3] = ["alpha", "bravo", "carbon"];
@@ -251,6 +390,7 @@ pub fn run(args: &[String]) -> i32 {
         let f = if case.get("codec").is_some() { "codec" } else { case["fn"].as_str().unwrap_or("") };
         let o = match f {
             "codec" => crate::codecs::run_case(&case),
+            "chunk" => run_chunk(&case),
             "footer" => run_footer(&case),
             "adaptive" => run_adaptive(&case),
             "snippet" => run_snippet(&case),
